@@ -24,7 +24,13 @@
     0x30-0x3f, 0x20-0x2f, 0x40-0x7e are disjoint, same argument (`ansiLen`).
 
   Digits: the numbers group is `(?:[0-9]+;)*(?:[0-9]+)?` - ASCII digits only (`isDigit`), so `int()` is only
-  ever applied to non-empty strings of ASCII digits (`intOf`).
+  ever applied to non-empty strings of ASCII digits (`intOf`). CPython's `int()` raises ValueError for a string
+  of more than `sys.get_int_max_str_digits()` digits (4300 by default, 0 = no limit; leading zeros count):
+  `md` is that limit - a PARAMETER of the model, instantiated by the driver with the value dumped from the live
+  interpreter (Generated/EscParse.lean). The `int(x)` sits in `peel_off_esc_code`, OUTSIDE the try of `parse`, so
+  the ValueError leaves `parse` and `from_str` falls back to `remove_ansi`.
+  `peelMatch` is the regex part of `peel_off_esc_code` (which match is chosen; `numbers` still the matched
+  str), `peel` adds the post-processing of `numbers`, which may raise.
 
   Dicts: a token is the `groupdict()` with front/rest deleted: `numbers = none` when the key is absent (m2).
   The dicts that `token_type` returns are the constructors of `Upd`. `cur_fmt` of `from_str` is an `Atts`
@@ -79,18 +85,38 @@ def splitSemi (cur : Text) : Text → List Text
   | [] => [cur]
   | c :: r => if c = ';' then cur :: splitSemi [] r else splitSemi (cur ++ [c]) r
 
-/-- `int(x)` for a string of decimal digits (the only strings it is applied to: pieces of the `numbers`
-    group, which consist of ASCII digits: value = code point - 48). -/
-def intOf (t : Text) : Nat := t.foldl (fun acc c => acc * 10 + (c.toNat - 48)) 0
+/-- Value of a string of ASCII digits (digit value = code point - 48). -/
+def intVal (t : Text) : Nat := t.foldl (fun acc c => acc * 10 + (c.toNat - 48)) 0
+
+/-- `int(x)` for a non-empty string of ASCII digits (the only strings it is applied to: pieces of the
+    `numbers` group): ValueError when it has more than `md` digits (`md = 0`: no limit). -/
+def intOf (md : Nat) (t : Text) : Except PyErr Nat :=
+  if md ≠ 0 ∧ t.length > md then .error .valueError else .ok (intVal t)
+
+/-- `[int(x) for x in pieces]`: left to right, the first failure raises. -/
+def intsOf (md : Nat) : List Text → Except PyErr (List Nat)
+  | [] => .ok []
+  | p :: ps =>
+    match intOf md p with
+    | .error e => .error e
+    | .ok v =>
+      match intsOf md ps with
+      | .error e => .error e
+      | .ok vs => .ok (v :: vs)
 
 /-- `if all(d["numbers"].split(";")): d["numbers"] = [int(x) for x in d["numbers"].split(";")]` -/
-def postNumbers (numbers : Text) : Numbers :=
+def postNumbers (md : Nat) (numbers : Text) : Except PyErr Numbers :=
   let pieces := splitSemi [] numbers
-  if pieces.all (fun p => !p.isEmpty) then .ints (pieces.map intOf) else .raw numbers
+  if pieces.all (fun p => !p.isEmpty) then
+    match intsOf md pieces with
+    | .error e => .error e
+    | .ok l => .ok (.ints l)
+  else .ok (.raw numbers)
 
 /-! ### m1 / m2 anchored at one position -/
 
-/-- m1 after the `csi` group: numbers, intermediates, command; returns the token and `rest`. -/
+/-- m1 after the `csi` group: numbers, intermediates, command; returns the token (the groupdict as
+    matched: `numbers` still a str) and `rest`. -/
 def csiBody (csi r : Text) : Option (Token × Text) :=
   let n := numsLen false r
   let numbers := r.take n
@@ -99,7 +125,7 @@ def csiBody (csi r : Text) : Option (Token × Text) :=
   match r1.dropWhile isIntermed with
   | cmd :: rest =>
     if isFinal cmd then
-      some (⟨csi, some (postNumbers numbers), intermed, cmd, csi ++ numbers ++ intermed ++ [cmd]⟩, rest)
+      some (⟨csi, some (.raw numbers), intermed, cmd, csi ++ numbers ++ intermed ++ [cmd]⟩, rest)
     else none
   | [] => none
 
@@ -142,14 +168,32 @@ def findEsc2 : Text → Option (Text × Token × Text)
       | some (f, t, rest) => some (c :: f, t, rest)
       | none => none
 
-/-- `peel_off_esc_code(s)` = (front, token, rest). -/
-def peel (s : Text) : Text × Option Token × Text :=
+/-- The match `peel_off_esc_code` settles on: (front, groupdict without front/rest, rest), or
+    `(s, None, "")`. -/
+def peelMatch (s : Text) : Text × Option Token × Text :=
   match findCsi s, findEsc2 s with
   | some (f1, t1, r1), some (f2, t2, r2) =>
     if f1.length ≤ f2.length then (f1, some t1, r1) else (f2, some t2, r2)
   | some (f1, t1, r1), none => (f1, some t1, r1)
   | none, some (f2, t2, r2) => (f2, some t2, r2)
   | none, none => (s, none, [])
+
+/-- The post-processing of `d["numbers"]` (only m1 matches have the key). -/
+def postToken (md : Nat) : Option Token → Except PyErr (Option Token)
+  | none => .ok none
+  | some t =>
+    match t.numbers with
+    | some (.raw numbers) =>
+      match postNumbers md numbers with
+      | .error e => .error e
+      | .ok v => .ok (some { t with numbers := some v })
+    | _ => .ok (some t)
+
+/-- `peel_off_esc_code(s)` = (front, token, rest), or the ValueError of `int()`. -/
+def peel (md : Nat) (s : Text) : Except PyErr (Text × Option Token × Text) :=
+  match postToken md (peelMatch s).2.1 with
+  | .error e => .error e
+  | .ok tok => .ok ((peelMatch s).1, tok, (peelMatch s).2.2)
 
 /-! ### token_type -/
 
@@ -313,10 +357,10 @@ theorem findEsc2_spec {s f rest : Text} {t : Token}
 
 /-- What `peel` returns: either a token, and then `s = front ++ seq ++ rest` with a sequence of at least
     two characters; or no token, and then `(s, None, "")`. -/
-theorem peel_spec (s : Text) :
-    (∃ f t r, peel s = (f, some t, r) ∧ s = f ++ t.seq ++ r ∧ t.seq.length ≥ 2) ∨
-    peel s = (s, none, []) := by
-  unfold peel
+theorem peelMatch_spec (s : Text) :
+    (∃ f t r, peelMatch s = (f, some t, r) ∧ s = f ++ t.seq ++ r ∧ t.seq.length ≥ 2) ∨
+    peelMatch s = (s, none, []) := by
+  unfold peelMatch
   split
   · rename_i f1 t1 r1 f2 t2 r2 h1 h2
     split
@@ -328,9 +372,9 @@ theorem peel_spec (s : Text) :
     exact .inl ⟨f2, t2, r2, rfl, findEsc2_spec h2⟩
   · exact .inr rfl
 
-theorem peel_rest_lt (s : Text) (h : (peel s).2.2 ≠ []) :
-    (peel s).2.2.length < s.length := by
-  rcases peel_spec s with ⟨f, t, r, hp, hs, hl⟩ | hp
+theorem peelMatch_rest_lt (s : Text) (h : (peelMatch s).2.2 ≠ []) :
+    (peelMatch s).2.2.length < s.length := by
+  rcases peelMatch_spec s with ⟨f, t, r, hp, hs, hl⟩ | hp
   · rw [hp]
     have := congrArg List.length hs
     simp only [List.length_append] at this
@@ -338,6 +382,13 @@ theorem peel_rest_lt (s : Text) (h : (peel s).2.2 ≠ []) :
     omega
   · rw [hp] at h
     exact absurd rfl h
+
+theorem peel_ok {md : Nat} {s : Text} {r : Text × Option Token × Text} (h : peel md s = .ok r) :
+    r.1 = (peelMatch s).1 ∧ r.2.2 = (peelMatch s).2.2 := by
+  unfold peel at h
+  split at h
+  · cases h
+  · cases h; exact ⟨rfl, rfl⟩
 
 /-! ### parse -/
 
@@ -359,23 +410,28 @@ def tokenItems : Option Token → Except PyErr (List Item)
 
 /-- The `while True` loop of `parse`, one iteration per call; `s` is the running variable `rest`. The list
     returned is what the iteration and all later ones append to `stuff`. Terminates because a peeled
-    sequence has at least two characters (`peel_rest_lt`), and without a token `rest` is empty. -/
-def parseLoop (s : Text) : Except PyErr (List Item) :=
-  let r := peel s
-  let front : List Item := if r.1.isEmpty then [] else [.str r.1]
-  match tokenItems r.2.1 with
+    sequence has at least two characters (`peelMatch_rest_lt`), and without a token `rest` is empty.
+    (`peel_off_esc_code` is called outside the `try`: its ValueError propagates unchanged.) -/
+def parseLoop (md : Nat) (s : Text) : Except PyErr (List Item) :=
+  match hp : peel md s with
   | .error e => .error e
-  | .ok toks =>
-    if _h : r.2.2 = [] then .ok (front ++ toks)         -- if not rest: break
-    else
-      match parseLoop r.2.2 with
-      | .error e => .error e
-      | .ok more => .ok (front ++ toks ++ more)
+  | .ok r =>
+    let front : List Item := if r.1.isEmpty then [] else [.str r.1]
+    match tokenItems r.2.1 with
+    | .error e => .error e
+    | .ok toks =>
+      if _h : r.2.2 = [] then .ok (front ++ toks)         -- if not rest: break
+      else
+        match parseLoop md r.2.2 with
+        | .error e => .error e
+        | .ok more => .ok (front ++ toks ++ more)
 termination_by s.length
-decreasing_by exact peel_rest_lt s _h
+decreasing_by
+  rw [(peel_ok hp).2] at _h ⊢
+  exact peelMatch_rest_lt s _h
 
 /-- `parse(s)` -/
-def parse (s : Text) : Except PyErr (List Item) := parseLoop s
+def parse (md : Nat) (s : Text) : Except PyErr (List Item) := parseLoop md s
 
 /-! ### remove_ansi -/
 
@@ -442,17 +498,17 @@ def fromStrLoop : Atts → List Item → List Chunk
   | cur, .str t :: xs => ⟨t, cur⟩ :: fromStrLoop cur xs
 
 /-- `FmtStr.from_str(s)` -/
-def fromStr (s : Text) : Except PyErr FmtStr :=
+def fromStr (md : Nat) (s : Text) : Except PyErr FmtStr :=
   if hasEscBracket s then
-    match parse s with
+    match parse md s with
     | .ok items => .ok (fromStrLoop {} items)
     | .error .valueError => .ok [⟨removeAnsi s, {}⟩]
     | .error e => .error e
   else .ok [⟨s, {}⟩]
 
 /-- `fmtstr(s, **atts)` for a `str` and already validated attributes (`parse_args` accepted them). -/
-def fmtstrOf (s : Text) (a : Atts) : Except PyErr FmtStr :=
-  match fromStr s with
+def fmtstrOf (md : Nat) (s : Text) (a : Atts) : Except PyErr FmtStr :=
+  match fromStr md s with
   | .ok f => .ok (copyWithNewAtts f a)
   | .error e => .error e
 
